@@ -45,10 +45,17 @@ func chain() *base.SlotChain {
 	return sc
 }
 
+// oneAttempt mirrors Config.OneAttempt of the configuration being explored (set in Reset).
+var oneAttempt bool
+
 func mkRule(res string, pct float64, active bool, healthy bool) *outlier.Rule {
+	attempts := uint32(2)
+	if oneAttempt {
+		attempts = 1
+	}
 	return &outlier.Rule{
 		Rule:                 &cb.Rule{Id: res, Resource: res, Strategy: cb.ErrorCount, RetryTimeoutMs: retryMs, MinRequestAmount: 1, StatIntervalMs: 100000, Threshold: 1},
-		EnableActiveRecovery: active, MaxEjectionPercent: pct, RecoveryIntervalMs: 2000, RecycleIntervalS: recycleS, MaxRecoveryAttempts: 2,
+		EnableActiveRecovery: active, MaxEjectionPercent: pct, RecoveryIntervalMs: 2000, RecycleIntervalS: recycleS, MaxRecoveryAttempts: attempts,
 		RecoveryCheckFunc: func(string) bool { return healthy },
 	}
 }
@@ -177,6 +184,8 @@ type Config struct {
 	// completes (barrier between Entry and Exit); otherwise only after it (both are legal
 	// environment answers for the asynchronous channels).
 	FastConsumer bool `json:"fast_consumer"`
+	// OneAttempt: MaxRecoveryAttempts is 1 instead of 2 (the active-recovery give-up is one timer away)
+	OneAttempt bool `json:"one_recovery_attempt,omitempty"`
 }
 
 func (c Config) String() string { b, _ := json.Marshal(c); return string(b) }
@@ -246,6 +255,7 @@ func (s *scen) Enabled(i int) bool {
 }
 
 func (s *scen) Reset() {
+	oneAttempt = s.cfg.OneAttempt
 	reset()
 	s.now = T0
 	s.pct = s.cfg.Pct
@@ -480,9 +490,10 @@ func mkOps() []opDef {
 
 func configs() []Config {
 	return []Config{
-		{0.34, false, false, false}, {0.5, false, false, false}, {0.67, false, false, false}, {1.0, false, false, false}, {0, false, false, false},
-		{0.5, true, true, false}, {0.5, true, false, false}, {0.67, true, true, false},
-		{0.34, false, false, true}, {0.67, false, false, true}, {1.0, false, false, true}, {0, false, false, true}, {0.5, true, true, true}, {0.5, true, false, true},
+		{Pct: 0.34, Active: false, Healthy: false, FastConsumer: false}, {Pct: 0.5, Active: false, Healthy: false, FastConsumer: false}, {Pct: 0.67, Active: false, Healthy: false, FastConsumer: false}, {Pct: 1.0, Active: false, Healthy: false, FastConsumer: false}, {Pct: 0, Active: false, Healthy: false, FastConsumer: false},
+		{Pct: 0.5, Active: true, Healthy: true, FastConsumer: false}, {Pct: 0.5, Active: true, Healthy: false, FastConsumer: false}, {Pct: 0.67, Active: true, Healthy: true, FastConsumer: false},
+		{Pct: 0.34, Active: false, Healthy: false, FastConsumer: true}, {Pct: 0.67, Active: false, Healthy: false, FastConsumer: true}, {Pct: 1.0, Active: false, Healthy: false, FastConsumer: true}, {Pct: 0, Active: false, Healthy: false, FastConsumer: true}, {Pct: 0.5, Active: true, Healthy: true, FastConsumer: true}, {Pct: 0.5, Active: true, Healthy: false, FastConsumer: true},
+		{Pct: 0.5, Active: true, Healthy: false, FastConsumer: true, OneAttempt: true}, {Pct: 0.34, Active: true, Healthy: false, FastConsumer: true, OneAttempt: true},
 	}
 }
 
@@ -530,7 +541,11 @@ func run(c *props.Ctx) {
 			break
 		}
 		s := &scen{cfg: cfg, ops: mkOps()}
-		res := seq.Explore(s, seq.Options{Depth: depth, Deadline: c.Deadline, Classify: signature, MaxStates: 1000000})
+		d := depth
+		if cfg.OneAttempt && d < 7 {
+			d = 7 // the give-up of the active recovery is seven operations away
+		}
+		res := seq.Explore(s, seq.Options{Depth: d, Deadline: c.Deadline, Classify: signature, MaxStates: 1000000})
 		c.R.States += int64(res.States)
 		c.R.Transitions += res.Transitions
 		c.R.Evaluations += res.Transitions
